@@ -9,6 +9,7 @@
 //                       header line deleted / duplicated / swapped with its successor,
 //                       trailing garbage, single-byte corruption at every offset, swapped and
 //                       empty / missing .cof files
+//   * missing_files     absent / empty / directory / over-long-name data files: GeographicErr only
 //   * geoid_ftruncate   file shrunk under a live non-cached Geoid: every later call returns
 //                       the old value or raises GeographicErr
 //   * parser_directed   cross product (hostile string catalogue) x (all string parsers)
@@ -330,6 +331,40 @@ void geoid_ftruncate_case(Ctx& c, uint64_t idx) {
   c.event("geoid-live-truncation/heights-unchanged", same); c.event("geoid-live-truncation/heights-GeographicErr", threw);
 }
 
+// ------------------------------------------------------------------ missing / unreadable files
+void missing_case(Ctx& c, uint64_t idx) {
+  ensure_dir();
+  c13::hang::install(fileno(c.out), c.section, c.idx, c.seed);
+  g_env.c = &c; g_env.input = nullptr; g_env.label = "missing-file case " + std::to_string(idx); g_env.cls = "missing-file";
+  const std::string d = g_env.dir;
+  for (const char* f : {"x.wmm", "x.wmm.cof", "x.egm", "x.egm.cof", "t.pgm"}) ::unlink((d + "/" + f).c_str());
+  c13::PairSeed m = c13::magnetic_seed(0), g = c13::gravity_seed(0);
+  std::string longname(5000, 'n'), nulname("t\0x", 3);
+  bool ok = false; int rc = 0; const char* what = "";
+  using namespace GeographicLib;
+  switch (idx) {
+  case 0: what = "Geoid/no-such-file"; rc = c13::guard(g_env, "Geoid::Geoid(missing)", [&] { Geoid x("nosuch", d); ok = true; }); break;
+  case 1: what = "Geoid/name-is-a-directory"; ::mkdir((d + "/dir.pgm").c_str(), 0755); rc = c13::guard(g_env, "Geoid::Geoid(directory)", [&] { Geoid x("dir", d); ok = true; }); ::rmdir((d + "/dir.pgm").c_str()); break;
+  case 2: what = "Geoid/empty-file"; c13::write_file(d + "/t.pgm", ""); rc = c13::guard(g_env, "Geoid::Geoid(empty)", [&] { Geoid x("t", d, true, true); ok = true; }); break;
+  case 3: what = "Geoid/default-path"; rc = c13::guard(g_env, "Geoid::Geoid(default path)", [&] { Geoid x("nosuch"); ok = true; }); break;
+  case 4: what = "Geoid/very-long-name"; rc = c13::guard(g_env, "Geoid::Geoid(long name)", [&] { Geoid x(longname, d); ok = true; }); break;
+  case 5: what = "Geoid/name-with-NUL"; c13::write_file(d + "/t.pgm", c13::geoid_seed(0).bytes); rc = c13::guard(g_env, "Geoid::Geoid(NUL in name)", [&] { Geoid x(nulname, d); (void)x(1, 2); }); ok = false; rc = 1; break;
+  case 6: what = "MagneticModel/no-such-file"; rc = c13::guard(g_env, "MagneticModel(missing)", [&] { MagneticModel x("nosuch", d); ok = true; }); break;
+  case 7: what = "MagneticModel/missing-cof"; c13::write_file(d + "/x.wmm", m.meta.bytes); rc = c13::guard(g_env, "MagneticModel(missing cof)", [&] { MagneticModel x("x", d); ok = true; }); break;
+  case 8: what = "MagneticModel/empty-cof"; c13::write_file(d + "/x.wmm", m.meta.bytes); c13::write_file(d + "/x.wmm.cof", ""); rc = c13::guard(g_env, "MagneticModel(empty cof)", [&] { MagneticModel x("x", d); ok = true; }); break;
+  case 9: what = "MagneticModel/default-path"; rc = c13::guard(g_env, "MagneticModel(default path)", [&] { MagneticModel x("nosuch"); ok = true; }); break;
+  case 10: what = "GravityModel/no-such-file"; rc = c13::guard(g_env, "GravityModel(missing)", [&] { GravityModel x("nosuch", d); ok = true; }); break;
+  case 11: what = "GravityModel/missing-cof"; c13::write_file(d + "/x.egm", g.meta.bytes); rc = c13::guard(g_env, "GravityModel(missing cof)", [&] { GravityModel x("x", d); ok = true; }); break;
+  case 12: what = "GravityModel/empty-cof"; c13::write_file(d + "/x.egm", g.meta.bytes); c13::write_file(d + "/x.egm.cof", ""); rc = c13::guard(g_env, "GravityModel(empty cof)", [&] { GravityModel x("x", d); ok = true; }); break;
+  case 13: what = "GravityModel/cof-is-the-metadata-file"; c13::write_file(d + "/x.egm", g.meta.bytes); c13::write_file(d + "/x.egm.cof", g.meta.bytes); rc = c13::guard(g_env, "GravityModel(cof = metadata)", [&] { GravityModel x("x", d); ok = true; }); break;
+  case 14: what = "GravityModel/very-long-name"; rc = c13::guard(g_env, "GravityModel(long name)", [&] { GravityModel x(longname, d); ok = true; }); break;
+  default: return;
+  }
+  if (ok) c.viol(std::string("fault:C13/unusable-file-accepted/") + what, "missing-file", J().str("case", what));
+  c.count(std::string("missing-file/") + what + (rc == 1 ? "/GeographicErr" : rc == 2 ? "/bad_alloc" : "/other"), vh::hmix(7, idx));
+  for (const char* f : {"x.wmm", "x.wmm.cof", "x.egm", "x.egm.cof", "t.pgm"}) ::unlink((d + "/" + f).c_str());
+}
+
 // ------------------------------------------------------------------ seeds must be valid
 void seed_valid_case(Ctx& c, uint64_t idx) {
   struct Item { const char* target; std::string in; };
@@ -397,6 +432,7 @@ int main(int argc, char** argv) {
   for (auto& t : c13::targets()) if (t.is_string) g_strt.push_back(&t);
   std::vector<Section> S;
   S.push_back({"seed_valid", 64, 64, false, seed_valid_case, 60});
+  S.push_back({"missing_files", 15, 15, false, missing_case, 60});
   S.push_back({"fault_geoid", g_geoid.size(), g_geoid.size(), false, [](Ctx& c, uint64_t i) { run_fault(c, "geoid", g_geoid, i); }, 60});
   S.push_back({"fault_magnetic", g_magnetic.size(), g_magnetic.size(), false, [](Ctx& c, uint64_t i) { run_fault(c, "magnetic", g_magnetic, i); }, 60});
   S.push_back({"fault_gravity", g_gravity.size(), g_gravity.size(), false, [](Ctx& c, uint64_t i) { run_fault(c, "gravity", g_gravity, i); }, 60});
